@@ -17,13 +17,16 @@
 
    PROVED for all trees: rotateLeft / rotateRight (a), the link assignments of insert_left / insert_right with the
    predecessor/successor splice (b), the fix_insert loop = the functional up_ins chain, and tree_struct::insert as a
-   whole (c), histories of insertions, transfer of the C06 link-consistency / colouring / order theorems to the heap.
-   NOT YET PROVED (compared only, by the second correspondence run of comp/rb): remove, remove_half_leaf,
-   replace_node, fix_remove, tree_order_struct::insert, and the annotation values written by aggregate_node /
-   aggregate_path (only that they leave the hooks alone and terminate) — see the _partial theorem at the end. *)
+   whole (c), remove_half_leaf and replace_node (d), the fix_remove loop = the functional balL / balR chain and
+   tree_crtp_struct::remove as a whole (e), histories of insertions AND removals, transfer of the C06 link-consistency /
+   colouring / order theorems to the heap.
+   NOT PROVED (compared only, by the second correspondence run of comp/rb): tree_order_struct::insert(before, node) (its
+   descent; it ends in the proved insert_left / insert_right / fix_insert), and the annotation VALUES written by
+   aggregate_node / aggregate_path (proved: they leave the hooks alone and terminate) — see the _partial theorem at the end. *)
 From Coq Require Import NArith List Bool Lia PeanoNat Sorted.
 From FV Require Import Rb.RbModel Rb.RbInorder Rb.RbInvariant Rb.RbLayout Rb.RbHistory Rb.RbPtr Rb.RbPtrBase
-  Rb.RbPtrRefineRot Rb.RbPtrRefineIns Rb.RbPtrRefineFix Rb.RbPtrRefineInsert Rb.RbPtrRefineTop Rb.RbPtrHistory.
+  Rb.RbPtrRefineRot Rb.RbPtrRefineIns Rb.RbPtrRefineFix Rb.RbPtrRefineInsert Rb.RbPtrRemF Rb.RbPtrRefineRem
+  Rb.RbPtrRefineUnlink Rb.RbPtrRefineReplace Rb.RbPtrRefineRemove Rb.RbPtrRefineTop Rb.RbPtrHistory.
 Import ListNotations.
 
 (* the two forms of the representation predicate agree *)
@@ -127,22 +130,83 @@ Theorem C06_ptr_links :
     ptr_consistent elt annot id_of (p_hooks s) t /\ p_root s = root_id id_of t.
 Proof. exact repr_ptr_consistent. Qed.
 
-(* histories: the pointer-level run of ANY history of insertions of pairwise distinct nodes from the empty heap
-   returns normally with fuel > 2*log2(#ops+1) and represents the functional run ... *)
+(* (e) the loop fix_remove(n), n black at the focus: it only rearranges the CONTEXT — [rem_ctx ctx] is what the
+   functional balL / balR chain makes of it ([fst (del_up ctx (S, true)) = plug (rem_ctx ctx) S] for every S) — and
+   leaves predecessor / successor fields alone; [rem_ok]: the siblings on the way exist (black-height invariant) *)
+Theorem C06_ptr_fix_remove :
+  forall (elt annot : Type) (id_of : elt -> N) agg aeqb (ek : N -> elt) fuel ctx nl xn an nr (s : pstate annot),
+    NoDup (map id_of (inorder (plug ctx (T Black nl xn an nr)))) -> rem_ok elt ctx ->
+    treeSs elt annot id_of None s (plug ctx (T Black nl xn an nr)) -> length ctx < fuel ->
+    exists s', fix_remove agg aeqb ek fuel s (id_of xn) = POk s'
+               /\ treeSs elt annot id_of None s' (plug (rem_ctx ctx) (T Black nl xn an nr))
+               /\ ps_same (p_hooks s) (p_hooks s').
+Proof. exact fix_remove_t. Qed.
+
+Theorem C06_ptr_fix_remove_functional :
+  forall (elt : Type) (ctx : list (frame elt)) (t : tree elt unit),
+    fst (del_up ctx (t, true)) = plug (rem_ctx ctx) t.
+Proof. exact del_up_short. Qed.
+
+(* (d) remove_half_leaf(node, child): node x with the single (possibly empty) child subtree ch ([hl]: on the right if
+   side, else on the left) = the functional removal of that half leaf, [fst (del_up ctx (half c ch))] *)
+Theorem C06_ptr_remove_half_leaf :
+  forall (elt annot : Type) (id_of : elt -> N) agg aeqb (ek : N -> elt) side fuel ctx c ch x a (s : pstate annot),
+    NoDup (map id_of (inorder (plug ctx (hl elt side c ch x a)))) ->
+    reprs elt annot id_of None s (plug ctx (hl elt side c ch x a)) ->
+    (snd (half c ch) = true -> rem_ok elt ctx) -> length ctx + 2 < fuel ->
+    exists s', remove_half_leaf agg aeqb ek fuel s (id_of x) (root_id id_of ch) = POk s'
+               /\ reprs elt annot id_of None s' (fst (del_up ctx (half c ch))).
+Proof. exact remove_half_leaf_ok. Qed.
+
+(* (d) replace_node(node, replacement): a non-member takes the member's place in tree and list; the member is reset *)
+Theorem C06_ptr_replace_node :
+  forall (elt annot : Type) (id_of : elt -> N) agg aeqb (ek : N -> elt) fuel ctx c l x a r xm (s : pstate annot),
+    NoDup (id_of xm :: map id_of (inorder (plug ctx (T c l x a r)))) ->
+    reprs elt annot id_of None s (plug ctx (T c l x a r)) -> length ctx <= fuel ->
+    exists s', replace_node agg aeqb ek fuel s (id_of x) (id_of xm) = POk s'
+               /\ reprs elt annot id_of None s' (plug ctx (T c l xm tt r)).
+Proof. exact replace_node_ok. Qed.
+
+(* tree_crtp_struct::remove: for every red-black tree t (any annotation), every member i, every heap that represents t:
+   the pointer-level remove returns normally and the heap represents [remove id_of agg i t] (a stale colour stays in
+   the removed hook, its five links are null) *)
+Theorem C06_ptr_remove_refines :
+  forall (elt annot : Type) (id_of : elt -> N) agg aeqb (ek : N -> elt)
+         (i : N) (t : tree elt annot) (s : pstate annot) (fuel : nat),
+    NoDup (map id_of (inorder t)) -> rb t -> In i (map id_of (inorder t)) ->
+    repr elt annot id_of s t -> 2 * Nat.log2 (size t + 1) + 2 < fuel ->
+    exists s', p_remove agg aeqb ek fuel s i = POk s'
+               /\ repr elt annot id_of s' (remove id_of agg i t)
+               /\ NoDup (map id_of (inorder (remove id_of agg i t))).
+Proof. exact p_remove_refines. Qed.
+
+(* histories: the pointer-level run of ANY history of insertions and removals from the empty heap (every operation valid
+   when issued: [tops_ok] — insert only non-members, remove only members) returns normally with
+   fuel > 2*log2(#ops+1)+2 and represents the functional run; no axioms on the comparator ... *)
 Theorem C06_ptr_history :
   forall (elt annot : Type) (id_of : elt -> N) (less : elt -> elt -> bool) agg aeqb
-         (xs : list elt) (a0 : annot) (ek0 : N -> elt) (fuel : nat),
-    NoDup (map id_of xs) -> 2 * Nat.log2 (length xs + 1) < fuel ->
-    let t := fold_left (rb_step id_of less agg) (map (@OIns elt) xs) E in
-    exists s' ek', p_run elt annot id_of less agg aeqb fuel (map (@OIns elt) xs) (p_empty a0) ek0 = POk (s', ek')
+         (ops : list (op elt)) (a0 : annot) (ek0 : N -> elt) (fuel : nat),
+    tops_ok elt annot id_of less agg E ops -> 2 * Nat.log2 (length ops + 1) + 2 < fuel ->
+    let t := fold_left (rb_step id_of less agg) ops E in
+    exists s' ek', p_run elt annot id_of less agg aeqb fuel ops (p_empty a0) ek0 = POk (s', ek')
                    /\ repr elt annot id_of s' t /\ rb t /\ NoDup (map id_of (inorder t))
                    /\ keys_ok elt annot id_of ek' t
                    /\ ptr_consistent elt annot id_of (p_hooks s') t /\ p_root s' = root_id id_of t.
-Proof. exact p_run_inserts. Qed.
+Proof.
+  intros elt annot id_of less agg aeqb ops a0 ek0 fuel Hok Hf t.
+  destruct (p_run_refines elt annot id_of less agg aeqb ops E (p_empty a0) ek0 fuel Hok (rb_E_ok elt annot) (NoDup_nil _))
+    as (s' & ek' & A & B & C & D & K).
+  - intros y [].
+  - apply repr_empty.
+  - cbn [size]. replace (length ops + 0 + 1) with (length ops + 1) by lia. exact Hf.
+  - exists s', ek'. split; [exact A|]. split; [exact B|]. split; [exact C|]. split; [exact D|]. split; [exact K|].
+    apply repr_ptr_consistent; assumption.
+Qed.
 
-(* ... hence every C06 theorem transfers to the heap the pointer code leaves behind: for a strict weak order the
-   successor walk over the REAL hook fields from first() is the stably sorted sequence of the inserted elements,
-   the colouring is red-black, the height is logarithmic, all links are consistent *)
+(* ... hence every C06 theorem transfers to the heap the pointer code leaves behind: for a strict weak order and the
+   documented precondition [ids_fresh] of Properties_C06, the successor walk over the REAL hook fields from first() is the
+   contained multiset in comparator order with equal keys in insertion order, the colouring is red-black, the height is
+   logarithmic, all links are consistent *)
 Section C06_ptr_transfer.
   Variable less : N -> N -> bool.
   Hypothesis less_asym : forall a b, less a b = true -> less b a = false.
@@ -153,42 +217,52 @@ Section C06_ptr_transfer.
     fun a b c => less_negtrans (fst a) (fst b) (fst c).
 
   Theorem C06_ptr_history_transfer :
-    forall (xs : list pelt) (ek0 : N -> pelt) (fuel : nat),
-      NoDup (map pid xs) -> 2 * Nat.log2 (length xs + 1) < fuel ->
+    forall (ops : list (op pelt)) (ek0 : N -> pelt) (fuel : nat),
+      ids_fresh pid lt ops -> 2 * Nat.log2 (length ops + 1) + 2 < fuel ->
       exists (s' : ppstate) ek',
-        p_run pelt unit pid lt pagg paeqb fuel (map (@OIns pelt) xs) pp_empty ek0 = POk (s', ek')
-        /\ let t : ptree := fold_left (rb_step pid lt pagg) (map (@OIns pelt) xs) E in
-           let l := fold_left (list_step pid lt) (map (@OIns pelt) xs) [] in
+        p_run pelt unit pid lt pagg paeqb fuel ops pp_empty ek0 = POk (s', ek')
+        /\ let t : ptree := fold_left (rb_step pid lt pagg) ops E in
+           let l := fold_left (list_step pid lt) ops [] in
            inorder t = l /\ sorted lt l /\ NoDup (map pid l)
            /\ rb t /\ height t <= 2 * Nat.log2 (size t + 1)
            /\ walk_succ (p_hooks s') (size t) (option_map pid (first t)) = map pid l   (* successor walk on the heap *)
            /\ p_root s' = root_id pid t
            /\ ptr_consistent pelt unit pid (p_hooks s') t.
   Proof.
-    intros xs ek0 fuel Nd Hf.
-    destruct (p_run_inserts pelt unit pid lt pagg paeqb xs tt ek0 fuel Nd Hf) as (s' & ek' & A & B & C & D & _ & F & G).
-    exists s', ek'. split; [exact A|]. cbv zeta.
-    destruct (history_all pelt unit pid lt pagg lt_asym lt_negtrans (map (@OIns pelt) xs)
-                (ids_fresh_inserts pelt unit pid lt pagg xs Nd)) as (H1 & H2 & H3 & H4 & H5 & _).
-    rewrite <- H1. split; [reflexivity|]. split; [exact H2|]. split; [exact H3|]. split; [exact H4|]. split; [exact H5|].
-    split; [apply F|]. split; [exact G|exact F].
+    intros ops ek0 fuel Hfresh Hf.
+    assert (Hok : tops_ok pelt unit pid lt pagg E ops).
+    { apply (ops_ok_tops pelt unit pid lt pagg lt_asym lt_negtrans ops E []); [reflexivity|constructor|constructor|exact Hfresh]. }
+    destruct (p_run_refines pelt unit pid lt pagg paeqb ops E pp_empty ek0 fuel Hok (rb_E_ok pelt unit) (NoDup_nil _))
+      as (s' & ek' & A & B & C & D & _).
+    - intros y [].
+    - apply repr_empty.
+    - cbn [size]. replace (length ops + 0 + 1) with (length ops + 1) by lia. exact Hf.
+    - exists s', ek'. split; [exact A|]. cbv zeta.
+      destruct (history_all pelt unit pid lt pagg lt_asym lt_negtrans ops Hfresh) as (H1 & H2 & H3 & H4 & H5 & _).
+      destruct (repr_ptr_consistent pelt unit pid s' _ D B) as [F G].
+      rewrite <- H1. split; [reflexivity|]. split; [exact H2|]. split; [exact H3|]. split; [exact H4|]. split; [exact H5|].
+      split; [apply F|]. split; [exact G|exact F].
   Qed.
 End C06_ptr_transfer.
 
-(* FULL STATEMENT NOT YET PROVED (remove side):
-   Theorem C06_ptr_remove_refines :
-     forall elt annot id_of agg aeqb ek (i : N) (t : tree elt annot) (s : pstate annot) fuel,
-       NoDup (map id_of (inorder t)) -> rb t -> In i (map id_of (inorder t)) ->
-       repr elt annot id_of s t -> height t < fuel ->
-       exists s', p_remove agg aeqb ek fuel s i = POk s' /\ repr elt annot id_of s' (remove id_of agg i t).
-   and C06_ptr_history for histories with ORem.  What is proved of the removal path is what it shares with insertion:
-   both rotations (C06_ptr_rotateLeft/Right) and the colour assignment, i.e. every primitive fix_remove is made of. *)
-Theorem C06_ptr_remove_partial :
-  forall (elt annot : Type) (id_of : elt -> N) sk ctx c0 l x a r (s : pstate annot) c,
-    NoDup (map id_of (inorder (plug ctx (T c0 l x a r)))) -> (sk = None \/ sk = Some (id_of x)) ->
-    reprs elt annot id_of sk s (plug ctx (T c0 l x a r)) ->
-    reprs elt annot id_of None (set_color s (id_of x) (Some c)) (plug ctx (T c l x a r)).
-Proof. exact set_color_ok. Qed.
+(* FULL STATEMENTS NOT PROVED:
+   (1) Theorem C06_ptr_insert_before_refines :
+         forall elt annot id_of agg aeqb ek (b : option N) (x : elt) (t : tree elt annot) (s : pstate annot) fuel,
+           NoDup (id_of x :: map id_of (inorder t)) -> rb t -> (forall i, b = Some i -> In i (map id_of (inorder t))) ->
+           repr elt annot id_of s t -> height t < fuel ->
+           exists s', p_insert_before agg aeqb ek fuel s b (id_of x) = POk s'
+                      /\ repr elt annot id_of s' (insert_before id_of agg b x t).
+       (the rightmost descent of tree_order_struct::insert; everything after the descent is C06_ptr_insert_left_links /
+        right_links / fix_insert, which are proved for every context).
+   (2) the annotation heap: forall i member of t, p_annots s' i = the annotation stored at i in the functional result
+       (needs ann_ok t and the soundness of aggregate_path's early stop, C07_early_stop_sound).
+   What is proved of both is the part they share with C06_ptr_insert_refines: *)
+Theorem C06_ptr_order_and_annotations_partial :
+  forall (elt annot : Type) (id_of : elt -> N) agg aeqb (ek : N -> elt) sk ctx rid fuel (s : pstate annot),
+    cinv id_of sk (p_hooks s) ctx rid -> length ctx <= fuel ->
+    exists s', aggregate_path agg aeqb ek fuel s (cpar id_of ctx) = POk s'
+               /\ p_hooks s' = p_hooks s /\ p_root s' = p_root s.
+Proof. exact aggregate_path_ok. Qed.
 
 Print Assumptions C06_ptr_repr_forms.
 Print Assumptions C06_ptr_zipper_complete.
@@ -203,7 +277,12 @@ Print Assumptions C06_ptr_insert_layout.
 Print Assumptions C06_ptr_links.
 Print Assumptions C06_ptr_history.
 Print Assumptions C06_ptr_history_transfer.
-Print Assumptions C06_ptr_remove_partial.
+Print Assumptions C06_ptr_fix_remove.
+Print Assumptions C06_ptr_fix_remove_functional.
+Print Assumptions C06_ptr_remove_half_leaf.
+Print Assumptions C06_ptr_replace_node.
+Print Assumptions C06_ptr_remove_refines.
+Print Assumptions C06_ptr_order_and_annotations_partial.
 
 (* ---- non-vacuity: concrete scripts through BOTH models by vm_compute *)
 Definition ptr_demo_xs : list pelt :=
@@ -224,12 +303,12 @@ Example C06_ptr_demo_insert :
 Proof. vm_compute. repeat split; reflexivity. Qed.
 
 Example C06_ptr_demo_hypotheses :
-  NoDup (map pid ptr_demo_xs) /\ 2 * Nat.log2 (length ptr_demo_xs + 1) < 12.
-Proof. split; [|vm_compute; lia]. vm_compute. repeat constructor; cbn; intuition discriminate. Qed.
+  ids_fresh pid (pless N.ltb) (map (@OIns pelt) ptr_demo_xs) /\ 2 * Nat.log2 (length (map (@OIns pelt) ptr_demo_xs) + 1) + 2 < 12.
+Proof. split; [|vm_compute; lia]. vm_compute. repeat split; intuition discriminate. Qed.
 
-(* the same history with removals (Properties_C06.demo_ops: root removal, two children, re-insertion) through the
-   pointer-level p_remove, which is not yet proved: all links of all pool nodes and the colours of the members agree
-   with the functional model after the whole script *)
+(* a history with removals (root removal, node with two children, re-insertion of removed nodes) through p_remove:
+   all links of all pool nodes and the colours of the members agree with the functional model after the whole script;
+   the history meets the hypotheses of C06_ptr_history_transfer *)
 Definition ptr_demo_ops : list (op pelt) :=
   [OIns (5, 0); OIns (3, 1); OIns (5, 2); OIns (3, 3); OIns (7, 4); OIns (5, 5); OIns (1, 6);
    ORem 0; ORem 2; OIns (5, 0); ORem 6; OIns (3, 6); ORem 3; ORem 4; OIns (0, 2)]%N.
@@ -244,6 +323,10 @@ Example C06_ptr_demo_remove :
   | _ => False
   end.
 Proof. vm_compute. repeat split; reflexivity. Qed.
+
+Example C06_ptr_demo_remove_hypotheses :
+  ids_fresh pid (pless N.ltb) ptr_demo_ops /\ 2 * Nat.log2 (length ptr_demo_ops + 1) + 2 < 12.
+Proof. split; [|vm_compute; lia]. vm_compute. repeat split; intuition discriminate. Qed.
 
 (* a rotation at an inner node of a concrete tree, through C06_ptr_rotateLeft's hypotheses *)
 Example C06_ptr_demo_rotate :
